@@ -868,6 +868,57 @@ struct runner
     return t;
   }
 
+  // team<T>::inc_age(): every member ages, nothing else changes
+  team_t op_tincage(unsigned id, const team_t &a)
+  {
+    setinfo &si = *sets[id];
+    oracle o{si};
+    const unsigned k = a.individuals();
+    begin("tincage" + N(id) + N(k) + ST(a));
+    team_t t(a);
+    t.inc_age();
+    bool st = t.individuals() == k;
+    for (unsigned m = 0; m < k && st; ++m)
+    {
+      st = t[m].size() == a[m].size() && t[m].categories() == a[m].categories() && t[m].best() == a[m].best()
+           && t[m].verif_crossover_type() == a[m].verif_crossover_type() && o.changed(a[m], t[m]) == 0;
+      if (!st) o.fail("team-inc-age-changed-a-member");
+      else if (t[m].age() != a[m].age() + 1) { st = false; o.fail("age"); }
+    }
+    note("set", id); note("rows", a[0].size()); note("team", k);
+    for (unsigned m = 0; m < k && m < t.individuals(); ++m) hist_add(t[m]);
+    hist_note();
+    const bool wf = twf(o, t, k);
+    end("tincage", ST(t), wf, st, wf && t.is_valid(), wf ? texec(t) : "skipped", true, o.why);
+    last_ok = wf;
+    return t;
+  }
+
+  // team(std::vector<T>): the team made of the given individuals, in order
+  team_t op_tmembers(unsigned id, const std::vector<i_mep> &v)
+  {
+    setinfo &si = *sets[id];
+    oracle o{si};
+    const unsigned k = unsigned(v.size());
+    std::string pre;
+    for (const auto &x : v) pre += S(x);
+    begin("tmembers" + N(id) + N(k) + pre);
+    const team_t t(v);
+    bool st = t.individuals() == k;
+    for (unsigned m = 0; m < k && st; ++m)
+    {
+      st = o.same_meta(v[m], t[m], true);
+      if (st && o.changed(v[m], t[m])) { st = false; o.fail("team-member-differs-from-the-given-individual"); }
+    }
+    note("set", id); note("rows", v[0].size()); note("team", k); note("trivial", 0);
+    for (unsigned m = 0; m < k && m < t.individuals(); ++m) hist_add(t[m]);
+    hist_note();
+    const bool wf = twf(o, t, k);
+    end("tmembers", ST(t), wf, st, wf && t.is_valid(), wf ? texec(t) : "skipped", true, o.why);
+    last_ok = wf;
+    return t;
+  }
+
   // ---- scenarios
   void individual_scenario(unsigned id, index_t len, index_t pl, unsigned hist)
   {
@@ -987,10 +1038,26 @@ struct runner
     {
       const team_t a(pool[rng.below(pool.size())]);
       team_t t;
-      if (rng.below(2))
+      const unsigned r = unsigned(rng.below(20));
+      if (r < 8)
       {
         static const double ps[] = {0.0, 0.1, 0.5, 1.0};
         t = op_tmutation(id, pl, ps[rng.below(4)], a);
+      }
+      else if (r < 10)
+        t = op_tincage(id, a);
+      else if (r < 12)
+      {
+        // a team assembled from members of (possibly different) teams of the pool and fresh individuals
+        std::vector<i_mep> v;
+        for (unsigned m = 0; m < k && last_ok; ++m)
+        {
+          const team_t &src = pool[rng.below(pool.size())];
+          if (rng.below(4) == 0) v.push_back(op_random(id, pl));
+          else v.push_back(src[unsigned(rng.below(src.individuals()))]);
+        }
+        if (!last_ok) break;
+        t = op_tmembers(id, v);
       }
       else
       {
